@@ -68,7 +68,7 @@ void GaussianMixture::resize(const std::size_t components, const std::size_t dim
 
     if ((this->dim_linear == dim_linear) && (this->dim_circular == dim_circular) && (this->components == components))
         return;
-    else if ((this->dim == new_dim) && (this->components != components))
+    else if ((this->dim == new_dim) && (this->dim_covariance == new_dim_covariance) && (this->components != components))
     {
         mean_.conservativeResize(NoChange, components);
         covariance_.conservativeResize(NoChange, dim_covariance * components);
@@ -88,6 +88,7 @@ void GaussianMixture::resize(const std::size_t components, const std::size_t dim
     this->dim_covariance = new_dim_covariance;
     this->dim_linear = dim_linear;
     this->dim_circular = dim_circular;
+    this->dim_noise = 0;
 }
 
 
